@@ -281,6 +281,13 @@ package rules
 //@   ghost at call getMatchForEndpoint: c10Name = arg0
 //@   ghost at call getActionForEndpoint: check arg0 == endpointPfx && arg1 == c10Name
 //@   ghost at call GoTo: check c10Name == prefix + old(r.wildcard)
+//@   ensures res1 != nil && res1.Rules == res2 && len(res2) >= len(endRules)
+//@ -- the nftables variant: one verdict-map rule, then the end rules - in the chain that is returned
+//@ func (*DefaultRuleRenderer).buildSingleDispatchChainsVMAP
+//@   property C10
+//@   option safety off
+//@   requires endpointPfx == WorkloadFromEndpointPfx || endpointPfx == WorkloadToEndpointPfx
+//@   ensures res1 != nil && res1.Rules == res2 && len(res2) == 1 + len(endRules)
 //@ func (*DefaultRuleRenderer).interfaceNameDispatchChains$1
 //@   property C10
 //@   option safety off
